@@ -605,6 +605,9 @@ struct Transition* deserialize_transition(struct Aid issuer, int times_considere
                        ((struct CommWaitTransition*)RES)->receiver_.value_ == AID_OF(OV(4)) &&
                        ((struct CommWaitTransition*)RES)->mbox_ == (unsigned)OV(5) && LOC_IS(*RES, OV(6)))) /*@ deser_wait_fields */;
 
+/* TESTANY / WAITANY constructor loops, for the empty-case contracts above: never entered */
+#define VF_LOOP_TestAnyTransition__ctor_0 __CPROVER_assigns(i) __CPROVER_loop_invariant(i == 0 && size == 0) __CPROVER_decreases(size - i)
+#define VF_LOOP_WaitAnyTransition__ctor_0 __CPROVER_assigns(i) __CPROVER_loop_invariant(i == 0 && size == 0) __CPROVER_decreases(size - i)
 #include "gen.c"
 
 /* =====================================================================================================================
